@@ -21,13 +21,13 @@ RULE = ("valid traces from the simulated machine are corrupted without restraint
         "pages, duplicated and swapped blocks, bit flips, JSON values of the wrong type, huge numbers, deep nesting, missing objects, loom_cpus "
         "entries without keys, names with '/'; ovniemu, ovnidump (-x and decoded), ovnitop, ovnisort -c and ovnisort run on every corrupted "
         "trace, built with ASan+UBSan, the stream held in an exact-size heap buffer (OVNI_VERIF hook; ovnisort in sorting mode keeps mmap), "
-        "under a 10 s wall-clock limit; evaluations = tool executions; distinct = hash of the corrupted bytes; non-trivial = the corrupted "
+        "under a 30 s wall-clock limit; evaluations = tool executions; distinct = hash of the corrupted bytes; non-trivial = the corrupted "
         "trace differs from the valid one")
 REAL = ["ovniemu, ovnidump, ovnitop, ovnisort built from /repo's working tree with -fsanitize=address,undefined -DOVNI_VERIF"]
 STUB = ["libovni replaced by the independent trace writer + storage fault layer"]
-ASSUMPTIONS = ["the 10 s limit is 1000x the normal run time of these traces (5-12 ms); it is the only non-simulated clock in the design",
+ASSUMPTIONS = ["the 30 s limit is more than 1000x the normal run time of these traces (5-12 ms); it is the only non-simulated clock in the design",
                "a die() reachable from trace bytes ends in abort() = SIGABRT and counts as a signal under the statement"]
-TOOL_TIMEOUT = 10.0
+TOOL_TIMEOUT = 30.0
 
 
 def mutate_obs(r, obs):
